@@ -348,6 +348,8 @@ func (dest *Destination) relay() {
 			dest.SlowNow = false
 			if signalConnOnline != nil {
 				close(signalConnOnline)
+				// a channel can only be closed once; the next (re)connect must not close it again
+				signalConnOnline = nil
 			}
 		case <-ticker.C: // periodically try to bring connection (back) up, if we have to, and no other connect is happening
 			if conn == nil && numConnUpdates == 0 {
